@@ -224,7 +224,8 @@ class Ref:
             raise NotFound()
         if c.get("setup") and not c.get("force"):
             sv, sf, ss = c["setup"]     # a version that a shell has set up is not undeclared under its feet
-            if self.find(n, sv, sf, [ss]) is not None and ss == k[0] and sv == v:
+            # (an instance of flavor f knows the products of f and of its fallback flavor, no others)
+            if sf in fallbacks(f) and self.find(n, sv, sf, [ss]) is not None and ss == k[0] and sv == v:
                 raise Refused()
         if tag:
             self._untag(f, tag, n, v, k[0], dry)
